@@ -46,12 +46,14 @@ Param Hist::genParam(const std::string& name, std::string* descr) {
     if (nd == 0) prod = (size_t)(rng.chance(50) ? 1 : rng.range(0, 5));
     bool explicitDims = nd > 0;
     std::ostringstream d; d << "type=" << (type == 0 ? "int" : type == 1 ? "float" : "string") << " dims=" << (explicitDims ? dimsToStr(dims) : std::string("implicit")) << " n=" << prod << " desc=" << dl;
+    try {
     if (type == 0) { std::vector<int> v; for (size_t i = 0; i < prod; ++i) v.push_back(rng.chance(15) ? (rng.chance(50) ? 32767 : -32768) : rng.range(-3000, 3000));
         if (explicitDims) p.set(v, dims); else if (prod == 1 && rng.chance(50)) p.set(v[0]); else p.set(v); }
     else if (type == 1) { std::vector<float> v; for (size_t i = 0; i < prod; ++i) v.push_back(bitsf(genFloatBits(rng, specialFloats)));
         if (explicitDims) p.set(v, dims); else if (prod == 1 && rng.chance(50)) p.set(v[0]); else p.set(v); }
     else { std::vector<std::string> v; for (size_t i = 0; i < prod; ++i) { int l = rng.chance(15) ? 0 : rng.range(1, 12); std::string s; for (int k = 0; k < l; ++k) s += (char)("ABCdef ghi_12"[rng.below(13)]); while (!s.empty() && s[s.size() - 1] == ' ') s[s.size() - 1] = 'z'; v.push_back(s); }
         if (explicitDims) p.set(v, dims); else if (prod == 1 && rng.chance(50)) p.set(v[0]); else p.set(v); }
+    } catch (const std::exception& e) { Outcome oc = classify(e); log.viol("C09", "set/consistent_refused/" + oc.cls, "while building a parameter: " + d.str() + ": " + oc.what); p.set(1); }
     if (rng.chance(25)) p.lock();
     if (descr) *descr = d.str();
     return p;
@@ -61,7 +63,7 @@ bool Hist::opSetRate(bool analog) {
     static const float prs[] = {50.f, 100.f, 120.f, 200.f, 29.97f, 59.94f, 60.f, 250.f, 1000.f};
     float pr = float0(prev, "POINT", "RATE"); float r;
     if (!analog) { r = prs[rng.below(sizeof prs / sizeof prs[0])]; if (rng.chance(6)) r = 0.f; }
-    else { float base = pr != 0.f ? pr : 100.f; r = base * (float)rng.range(1, (int)o.geti("maxsub", 6)); if (rng.chance(5)) r = 0.f; }
+    else { float base = pr != 0.f ? pr : 100.f; r = base * (float)rng.range(1, (int)o.geti("maxsub", 6)); if (rng.chance(5)) r = 0.f; else if (rng.chance(7)) r = base * 0.4f; }   // 0.4: an analog rate below half the point rate (ratio rounds to 0)
     // once frames are stored the sub-frame count is fixed by the data: a disciplined caller keeps ANALOG:RATE = POINT:RATE x sub-frames
     if (!wild && !prev.frames.empty()) {
         bool subs = false; for (size_t f = 0; f < prev.frames.size(); ++f) if (!prev.frames[f].subs.empty()) subs = true;
